@@ -1,7 +1,8 @@
 (* props/C01.v - property C01: base and extension field arithmetic is exact and canonical.
    Only statements, each closed by `exact`, each followed by Print Assumptions. *)
 From Coq Require Import ZArith Bool List.
-From TF Require Import Word BFieldGen BField XField BFieldProofs BFieldLoops XFieldProofs.
+From TF Require Import Word BFieldGen BField XField BFieldProofs BFieldLoops XFieldProofs BatchInvProofs.
+Import ListNotations.
 From TF Require Lucas.
 Open Scope Z_scope.
 
@@ -151,3 +152,18 @@ Print Assumptions C01_xinverse_partial.
 Theorem C01_xinverse_zero_panics : xinverse xzero = None.
 Proof. exact xinverse_zero_panics. Qed.
 Print Assumptions C01_xinverse_zero_panics.
+
+(* ---------------------------------------------------------------- batch inversion *)
+Theorem C01_batch_inversion : forall l, Forall canon l -> Forall (fun x => x <> 0) l ->
+  exists r, bfe_batch_inversion l = Some r /\
+            Forall2 (fun x y => canon y /\ (val y * val x) mod P = 1) l r.
+Proof. exact bfe_batch_inversion_spec. Qed.
+Print Assumptions C01_batch_inversion.
+
+Theorem C01_batch_inversion_zero_panics : forall l, In 0 l -> bfe_batch_inversion l = None.
+Proof. exact bfe_batch_inversion_zero_panics. Qed.
+Print Assumptions C01_batch_inversion_zero_panics.
+
+Example C01_batch_inversion_nonvacuous :
+  Forall canon [bfe_new 2; bfe_new 3] /\ Forall (fun x => x <> 0) [bfe_new 2; bfe_new 3].
+Proof. split; repeat constructor; try discriminate; vm_compute; reflexivity. Qed.
